@@ -1,15 +1,94 @@
 """C13 — A dry run has no effects and predicts the real build."""
+import json
+import os
+import shutil
+from lib.vlib import HARNESS, REPO
 from checks.engine_common import run_engine
 
 META = {
     "property_id": "C13",
-    "technique": "Coq proof over a Gallina model of the build engine + history correspondence with fresh-process builds",
-    "level_text": 'Theorems: dry_run_no_effects, dry_build_no_effects, load_refresh_invisible/idempotent, dry_run_transparent, dry_run_predicts_attempted (for every target the real build did not cut off below a failed dependency -- succeeded, own body failed, or unvisited -- the dry run reports evaluating iff the real build does: identical apart from targets downstream of a failure; under gens_unique), dry_run_predicts (its all-successful corollary). Correspondence + oracle: tree hash (files + persisted state) unchanged by a dry Run, evaluating sets of dry and following real build equal, incl. scripted always-target and in-process dry/reload/run scenarios; a dry Run over a dependency cycle whose error returns while a sibling target is still being evaluated: no body and no state change after Run has returned either.',
-    "level_note": 'Trusted: as C01. What stragglers do after Run returned is decided by the harness (hook-held target), not by the sequential model.',
+    "technique": "Coq proof over a Gallina model of the build engine + history correspondence with fresh-process builds + "
+                 "command-line oracle (every spelling of the dry-run option, one fresh dawn process per invocation)",
+    "level_text": 'Theorems: dry_run_no_effects, dry_build_no_effects, load_refresh_invisible/idempotent, dry_run_transparent, dry_run_predicts_attempted (for every target the real build did not cut off below a failed dependency -- succeeded, own body failed, or unvisited -- the dry run reports evaluating iff the real build does: identical apart from targets downstream of a failure; under gens_unique), dry_run_predicts (its all-successful corollary). Correspondence + oracle: tree hash (files + persisted state) unchanged by a dry Run, evaluating sets of dry and following real build equal, incl. scripted always-target and in-process dry/reload/run scenarios; a dry Run over a dependency cycle whose error returns while a sibling target is still being evaluated: no body and no state change after Run has returned either. Command line (the layer that turns the option a user types into RunOptions.DryRun): every way the dawn command offers to ask for a dry run -- `dawn -n`, `dawn --dry-run`, `dawn build -n`, `--dry-run=true`, clustered with or next to -B/--always and the persistent options, with and without a target argument, from the root or a package directory, ~40 spellings -- each run as a fresh process on small projects (single target, chain, packages, always-target, failing body, random layered) in four states (untouched, loaded, built, source edited): no body runs, the tree incl. .dawn is what a load-only command leaves, the targets it prints are the targets the same invocation without the flag then attempts (apart from those downstream of a failing body), and without the flag the build builds.',
+    "level_note": 'Trusted: as C01. What stragglers do after Run returned is decided by the harness (hook-held target), not by the sequential model. The command-line layer is held by oracle only (no model of cobra flag parsing); the status (terminal) renderer is not the one observed, standard output is a pipe.',
     "design_ref": "DESIGN.md §6 C13",
 }
+
+
+def run_cli(ctx):
+    """The command-line layer: harness/overlay/cmd/dawn/zz_verif_c13_cli_test.go (oracle only)."""
+    out = os.path.join(ctx.tmp, "c13-cli.jsonl")
+    # a private go.mod/go.sum: `go` must not be able to rewrite /repo's own, whatever it decides
+    for fn in ("go.mod", "go.sum"):
+        shutil.copy(os.path.join(REPO, fn), os.path.join(ctx.tmp, "c13-" + fn))
+    env = {"VERIF_OUT": out, "VERIF_SEED": str(ctx.seed), "VERIF_C13_SPELLINGS": "4" if ctx.quick() else "8",
+           "VERIF_C13_RANDOM": "0" if ctx.quick() else "300"}
+    rc, o = ctx.go_overlay_test("cmd/dawn",
+                                {"zz_verif_c13_cli_test.go": os.path.join(HARNESS, "overlay/cmd/dawn/zz_verif_c13_cli_test.go")},
+                                "^TestVerifC13CLI$", env, extra=["-modfile=" + os.path.join(ctx.tmp, "c13-go.mod")])
+    if rc != 0 or not os.path.exists(out):
+        ctx.log(o[-3000:])
+        ctx.violation("command-line harness failed to build or run against /repo (exit %d)" % rc,
+                      {"theorem_or_correspondence": "C13 command-line harness", "output": o[-3000:]}, found_input=False)
+        return
+    recs = [json.loads(l) for l in open(out)]
+    groups = [r for r in recs if r["t"] == "group"]
+    oracles = [r for r in recs if r["t"] == "ORACLE"]
+    stats = next((r["counts"] for r in recs if r["t"] == "stats"), {})
+    notes = [r for r in recs if r["t"] == "NOTE"]
+    if notes:
+        ctx.log("note: %d groups not played (%s)" % (len(notes), notes[0]["name"]))
+    ndry = stats.get("invocations:dry", 0)
+    ctx.coverage["evaluations"] = ctx.coverage.get("evaluations", 0) + ndry + stats.get("invocations:real", 0)
+    ctx.coverage["command_line"] = {
+        "groups": len(groups),
+        "invocations": {k.split(":", 1)[1]: v for k, v in stats.items() if k.startswith("invocations:")},
+        "dry_run_spellings": {k[4:]: v for k, v in sorted(stats.items()) if k.startswith("dry:")},
+        "without_the_flag": {k[5:]: v for k, v in sorted(stats.items()) if k.startswith("real:")},
+        "by_state": {k[6:]: v for k, v in stats.items() if k.startswith("state:")},
+        "by_shape": {k[6:]: v for k, v in stats.items() if k.startswith("shape:")},
+        "with_target_argument": stats.get("with-target-argument", 0),
+        "from_package_directory": stats.get("from-package-directory", 0),
+        "dry_runs_with_something_to_announce": sum(1 for g in groups for d in g["dry"] if d["announced"]),
+        "real_builds_that_ran_bodies": sum(1 for g in groups if g.get("real") and g["real"]["bodies"]),
+        "real_builds_that_failed": sum(1 for g in groups if g.get("real") and g["real"]["exit"] != 0),
+        "oracle_failures": len(oracles),
+        "rule": "one group = a generated project in a fresh directory, brought into a state (untouched / loaded by `dawn list targets` / "
+                "built by `dawn` / built and one source edited; a marker makes one body fail) by real invocations, then several "
+                "spellings of the dry run of one (always or not, target argument, working directory), then the same invocation "
+                "without the flag; every invocation is a fresh process running main()'s rootCmd.Execute() with standard output a pipe; "
+                "bodies append their label to a file outside the project. Spellings are dealt round-robin from the catalogue so "
+                "that all of them run in every check run. Oracles: no body in a dry run; digest of every path under the root equal "
+                "before/after (on an untouched tree: equal to what the load-only command leaves); labels printed 'evaluating...' by the "
+                "dry run = those of the real invocation (minus downstream of the failing body when it fails), every body that runs was "
+                "announced; without the flag the closure of the requested target runs, once each, on a never-built tree or with -B."}
+    ctx.log("command line: groups=%d dry-runs=%d (%d spellings) real=%d oracle_failures=%d" % (
+        len(groups), ndry, len(ctx.coverage["command_line"]["dry_run_spellings"]), stats.get("invocations:real", 0), len(oracles)))
+    byname = {}
+    for r in oracles:
+        byname.setdefault(r["name"], []).append(r)
+    for name, rs in byname.items():
+        # the smallest failing project, and all the spellings that failed
+        r = min(rs, key=lambda x: (len(json.dumps(x["group"]["files"])), len(x["group"].get("dry_args") or [])))
+        g = r["group"]
+        def spelling(x):   # the dry-run command line without its target argument
+            a = x["group"]["dry_args"]
+            return "dawn " + " ".join(a[:-1] if x["group"]["target"] and a[-1] == x["group"]["target"] else a)
+        spellings = sorted({spelling(x) for x in rs if x["group"].get("dry_args")})
+        ctx.violation("implementation violates C13 (command line) oracle %s: %s (%d failing invocations%s)" % (
+            name, r["detail"][:400], len(rs), ("; spellings: " + ", ".join(spellings[:12])) if spellings else ""),
+            {"oracle": name, "detail": r["detail"], "project_files": g["files"], "working_directory": g["cwd"],
+             "prepare": g["prepare"], "dry_run_command_line": (["dawn"] + g["dry_args"]) if g.get("dry_args") else None,
+             "then_without_the_flag": ["dawn"] + g["real_args"], "state": g["state"], "shape": g["shape"],
+             "all_failing_spellings": spellings,
+             "how": "write project_files into an empty directory <root> (in the bodies, the quoted path after >> is a log file outside "
+                    "the project, the one after `test ! -e` is <root>/fail.flag), run the prepare steps, then the dry-run command line "
+                    "in working_directory: no body may run, the tree under <root> may not change, and the labels it prints "
+                    "'evaluating...' must be those the command line without the flag then prints; "
+                    "harness/overlay/cmd/dawn/zz_verif_c13_cli_test.go (VERIF_SEED=%d)" % ctx.seed})
 
 
 def run(ctx):
     run_engine(ctx, "C13", "Build/Props_C13.v", ["C13 "], 4,
                "Oracle: tree hash (files and persisted state) equal before/after a dry Run; the dry run's evaluating set equals the following real build's.")
+    run_cli(ctx)
